@@ -29,7 +29,7 @@ def prefilter_conservative(db, ctx):
             ctx.floors['R3.5-' + k] = ctx.floors.pop(k)
 
 
-def run(db, ctx):
+def _run(db, ctx):
     ctx.rule('R3.1', 'the 8-bit pruning bound is only ever an under-estimate: scale(exact score); 8-bit tests are inclusive')
     ctx.rule('R3.2', 'R2.1/R2.2/R2.3/R2.5 on Scanner::max')
     ctx.rule('R3.3', 'best is seeded from the buffered hits filtered by score >= threshold')
@@ -114,3 +114,12 @@ def run(db, ctx):
             ctx.fail('R3.4', f, 'update of best', 'reason=unrecognised-shape: update not under a test of whether a best exists')
     ctx.floor('R3.4', n_upd, 1, 'updates of best from rescored candidates')
     prefilter_conservative(db, ctx)
+
+
+def run(db, ctx):
+    _run(db, ctx)
+    # the scanner scores one block of rows per iteration into a reused buffer, including a possibly empty trailing block that starts in the
+    # look-ahead rows: every score wrapper must resize (clear) the output on every path, or stale 8-bit scores of the previous block are re-read
+    from . import C01
+    common.shared_rule(db, ctx, C01.r13, 'R3.6', 'every score_rows_into wrapper the scanner can dispatch to resizes the output buffer on every path '
+                       '(to (rows.len(), L + 1 - M), or to (0, 0) when there is nothing to score) — shared with R1.3', ['R1.3'])
